@@ -16,7 +16,8 @@ CHARTUTIL = {"pkg": "./pkg/chart/v2/util", "files": ["pkg/chart/v2/util/h_values
 
 CHECKS = {
     "C11": {
-        "runs": [dict(CHARTUTIL, entries=["H11Scope"], bounds_quick={"depth": 2, "slim": 1, "pdepth": 0}, bounds_thorough={"depth": 2, "slim": 1, "pdepth": 1})],
+        "runs": [dict(pkg="./pkg/chart/v2/util", files=["pkg/chart/v2/util/h_c11_enabled.go"], entries=["H11Enabled"], bounds_quick={"minor": 3}, bounds_thorough={"minor": 5}),
+                 dict(CHARTUTIL, entries=["H11Scope"], bounds_quick={"depth": 2, "slim": 1, "pdepth": 0}, bounds_thorough={"depth": 2, "slim": 1, "pdepth": 1})],
         "bounds": {}, "assumptions": [],
     },
     "ACTIONSMOKE": {"runs": [dict(ACTION, entries=["HSmoke"])], "bounds": {}, "assumptions": []},
